@@ -1111,8 +1111,10 @@ class ConvertInstance:
         ctx.visit(search_unneeded_bool_casts)
 
         def replace_temporaries(obj, access):
-            if obj in replacement_map:
-                return replacement_map[obj]
+            # casts can be chained (bool(bool(x))), follow the replacements
+            # up to the object that is actually assigned
+            while obj in replacement_map:
+                obj = replacement_map[obj]
 
             return obj
 
